@@ -243,7 +243,9 @@ static std::string handoff_dir() {
   return d;
 }
 static void handoff(const Oct &bytes, const char *what) {
-  static int written = 0; if (written > 300) return; written++;
+  static int written = -1; // per process at most 300 files, and nothing once the directory holds 4000 entries
+  if (written < 0) { written = 0; size_t n = 0; if (DIR *dp = opendir(handoff_dir().c_str())) { while (readdir(dp)) n++; closedir(dp); } if (n > 4000) written = 1000; }
+  if (written > 300) return; written++;
   std::string p = handoff_dir() + "/c20-" + what + "-" + hkey(bytes) + ".bin"; struct stat st; if (stat(p.c_str(), &st) == 0) return;
   std::string t = p + ".tmp" + std::to_string(getpid()); { std::ofstream f(t, std::ios::binary); f.write((const char *)bytes.data(), bytes.size()); } rename(t.c_str(), p.c_str());
 }
@@ -391,7 +393,7 @@ static std::string at(size_t pos, unsigned char mask, Region r) { char b[96]; sn
 static bool write_file(const std::string &p, const Oct &d) { std::ofstream f(p, std::ios::binary); if (!f) return false; f.write((const char *)d.data(), d.size()); return (bool)f; }
 
 // =========================================================================== (1) document signatures
-VF_SUB(sig_document_roundtrip_and_flips, 130, 9000) {
+VF_SUB(sig_document_roundtrip_and_flips, 112, 6000) {
   PGP::MemoryGuardReset();
   std::vector<Key *> sk = signing_keys(); Key &k = *sk[ctx.c.index(sk.size())];
   tmcg_openpgp_hashalgo_t h = pick_hash(ctx, k, true);
@@ -493,7 +495,7 @@ VF_SUB(sig_document_roundtrip_and_flips, 130, 9000) {
 
 // texts whose line-ending forms the two entry points may treat differently (lone CR): the same signature over the same bytes must get
 // the same verdict from VerifyData (memory) and Verify (file)
-VF_SUB(sig_text_file_vs_memory, 40, 2000) {
+VF_SUB(sig_text_file_vs_memory, 40, 1500) {
   PGP::MemoryGuardReset();
   Key &k = key_named(ctx.c.coin() ? "rsa2048a" : "eddsa-a"); tmcg_openpgp_hashalgo_t h = TMCG_OPENPGP_HASHALGO_SHA256;
   bool lone_cr = false; Oct data = gen_text_doc(ctx, (size_t)ctx.c.range(1, 300), lone_cr);
@@ -583,7 +585,7 @@ static std::string gen_uid(Ctx &ctx) {
   return u;
 }
 
-VF_SUB(sig_certification_and_key_signatures, 90, 6000) {
+VF_SUB(sig_certification_and_key_signatures, 80, 3000) {
   PGP::MemoryGuardReset();
   std::vector<Key *> sk = signing_keys(); BlockSpec sp; sp.prim = sk[ctx.c.index(sk.size())]; Key &P = *sp.prim;
   static const char *subs[] = {"", "elg2048", "rsa2048e", "ecdh25519", "ecdh256"}; std::string sn = subs[ctx.c.weighted({2, 2, 2, 3, 2})]; if (!sn.empty()) sp.sub = &key_named(sn);
@@ -656,7 +658,7 @@ static Oct with_unhashed(const Oct &pkt, const Oct &uspd) {
   Oct body(b, b + 6 + hl); body.push_back(uspd.size() >> 8); body.push_back(uspd.size()); app(body, uspd); body.insert(body.end(), b + 8 + hl, b + sp[0].body);
   Oct out; PGP::PacketTagEncode(2, out); PGP::PacketLengthEncode(body.size(), out); app(out, body); return out;
 }
-VF_SUB(sig_validity_time_and_weakhash, 500, 25000) {
+VF_SUB(sig_validity_time_and_weakhash, 480, 20000) {
   PGP::MemoryGuardReset();
   std::vector<Key *> sk = signing_keys(); std::vector<Key *> cheap; for (auto k : sk) if (k->verify_ms < 10) cheap.push_back(k);
   Key &k = *cheap[ctx.c.index(cheap.size())]; const std::string A = algo_name(k.algo);
@@ -782,7 +784,7 @@ static bool decrypted_literal_equals(const Oct &dec, const Oct &data) {
   TMCG_OpenPGP_Message *m2 = nullptr; if (!PGP::MessageParse(dec, 0, m2)) return false; bool ok = m2->literal_data == data; delete m2; return ok;
 }
 
-VF_SUB(sym_mdc_roundtrip_and_flips, 160, 10000) {
+VF_SUB(sym_mdc_roundtrip_and_flips, 128, 5000) {
   PGP::MemoryGuardReset();
   std::string lcls; size_t len = pick_plain_len(ctx, lcls); Oct data = gen_binary_doc(ctx, len), lit; PGP::PacketLitEncode(data, lit);
   bool own = ctx.c.prob(2, 5); std::vector<int> cs = usable_ciphers(false); int algo = own ? cs[ctx.c.index(cs.size())] : 9;
@@ -812,7 +814,7 @@ VF_SUB(sym_mdc_roundtrip_and_flips, 160, 10000) {
     SOct k1(seskey.begin(), seskey.end() - 2); Oct o2; if (!M->Decrypt(k1, 0, o2) || o2 != litmdc) ctx.fail("sym/mdc/key-without-checksum-refused", d.str()); }
   if (ctx.failed) return; int64_t faults = 0;
   // ---- every ciphertext byte (object-level, no parser on altered bytes)
-  { FlipPlan P = plan_flips(ctx, enc.size(), ctx.thorough ? 2500 : 700);
+  { FlipPlan P = plan_flips(ctx, enc.size(), ctx.thorough ? 2500 : 400);
     for (size_t i = 0; i < P.pos.size(); i++) { M->encrypted_message[P.pos[i]] ^= P.mask[i]; Oct out; bool acc = M->Decrypt(seskey, 0, out); M->encrypted_message[P.pos[i]] ^= P.mask[i]; faults++;
       if (acc) { size_t bs = PGP::AlgorithmIVLength((tmcg_openpgp_skalgo_t)algo); const char *w = P.pos[i] < bs + 2 ? "prefix" : P.pos[i] + 22 >= enc.size() ? "mdc" : "ciphertext";
         ctx.fail(std::string("sym/mdc/flipped-") + w + "-accepted", "offset " + std::to_string(P.pos[i]) + " of " + std::to_string(enc.size()) + (out == litmdc ? " (same plaintext) " : " (other plaintext) ") + d.str()); break; } }
@@ -845,7 +847,7 @@ VF_SUB(sym_mdc_roundtrip_and_flips, 160, 10000) {
 }
 
 // --------------------------------------------------------------------------- encrypted data without integrity protection
-VF_SUB(sed_refused, 100, 5000) {
+VF_SUB(sed_refused, 96, 3000) {
   PGP::MemoryGuardReset();
   std::string lcls; size_t len = pick_plain_len(ctx, lcls); Oct data = gen_binary_doc(ctx, len), lit, enc, prefix; PGP::PacketLitEncode(data, lit); SOct seskey;
   unsigned variant = (unsigned)ctx.c.index(3); static const char *vn[] = {"plain SED (resynchronised CFB)", "SED carrying literal+MDC", "SED after a PKESK"};
@@ -891,7 +893,7 @@ static Oct literal_of_total_length(Ctx &ctx, size_t want, Oct &data) { // litera
   data = gen_binary_doc(ctx, want); Oct lit; PGP::PacketLitEncode(data, lit); return lit;
 }
 
-VF_SUB(sym_aead_roundtrip_and_flips, 140, 10000) {
+VF_SUB(sym_aead_roundtrip_and_flips, 112, 5000) {
   PGP::MemoryGuardReset();
   std::vector<int> modes; if (aead_mode_available(2)) modes.push_back(2); if (aead_mode_available(1)) modes.push_back(1);
   if (modes.empty()) { ctx.count("skipped_no_aead_mode"); ctx.label("skipped"); return; }
@@ -999,7 +1001,7 @@ static bool ecdh_point_encoding_slack(const Oct &in, const Span &s, size_t pos, 
   const unsigned char *p = in.data() + s.off + s.hdr; if (s.body < 13 || p[9] != 18) return false; size_t b = pos - s.off - s.hdr, len = ((((size_t)p[10] << 8) | p[11]) + 7) / 8;
   if (b == 12) return true; return cv25519 && b == 12 + len - 1 && mask == 0x80;
 }
-VF_SUB(pkesk_roundtrip, 90, 6000) {
+VF_SUB(pkesk_roundtrip, 80, 3000) {
   PGP::MemoryGuardReset();
   static const char *rk[] = {"rsa2048e", "elg2048", "ecdh25519", "ecdh256"}; Key &k = key_named(rk[ctx.c.weighted({3, 3, 2, 2})]); const std::string A = algo_name(k.algo) + (k.curve.empty() ? std::string("") : "/" + k.curve);
   time_t t = vtime() - 1000; Recipient R; if (!make_recipient(k, t, R)) { ctx.fail("pkesk/" + A + "/library-key-object-bad", k.name); return; }
@@ -1071,7 +1073,7 @@ static bool ref_aead_decrypt(int skalgo, int aead, int c, const Oct &key, const 
   else if (why.empty()) why = "libgcrypt error";
   gcry_cipher_close(hd); return ok;
 }
-VF_SUB(aead_nonce_schedule, 60, 4000) {
+VF_SUB(aead_nonce_schedule, 48, 2000) {
   PGP::MemoryGuardReset();
   std::vector<int> modes; if (aead_mode_available(2)) modes.push_back(2); if (aead_mode_available(1)) modes.push_back(1);
   if (modes.empty()) { ctx.count("skipped_no_aead_mode"); ctx.label("skipped"); return; }
@@ -1107,7 +1109,7 @@ VF_SUB(aead_nonce_schedule, 60, 4000) {
 static std::string sh_quote(const std::string &s) { return "'" + s + "'"; }
 static int run_cmd(const std::string &cmd, const std::string &outfile) { int st = system((cmd + " >" + sh_quote(outfile) + " 2>&1 </dev/null").c_str()); if (st == -1) return -1; return WIFEXITED(st) ? WEXITSTATUS(st) : 128 + WTERMSIG(st); }
 static std::string slurp(const std::string &p) { std::ifstream f(p); std::stringstream ss; ss << f.rdbuf(); return ss.str(); }
-VF_SUB(gpg_cross_check, 12, 400) {
+VF_SUB(gpg_cross_check, 12, 300) {
   PGP::MemoryGuardReset();
   static int have_gpgv = -1; if (have_gpgv < 0) have_gpgv = system("gpgv --version >/dev/null 2>&1") == 0 ? 1 : 0;
   if (!have_gpgv) { ctx.count("skipped_gpgv_unavailable"); ctx.label("skipped"); ctx.desc << "gpgv not installed"; return; }
